@@ -1,0 +1,48 @@
+//go:build verif
+
+package stage
+
+import (
+	"context"
+	"time"
+
+	"github.com/lindb/lindb/internal/concurrent"
+	"github.com/lindb/lindb/internal/linmetric"
+	"github.com/lindb/lindb/metrics"
+)
+
+// VerifStage is a stage whose plan node and next stages are supplied by the verification harness;
+// execution (inline or on the worker pool) is the real baseStage.Execute. Verification hook only.
+type VerifStage struct {
+	baseStage
+	ID         string
+	Node       PlanNode
+	Next       []Stage
+	OnComplete func()
+}
+
+// VerifNewStage creates a VerifStage; pool == nil gives an inline (sync) stage.
+func VerifNewStage(ctx context.Context, pool concurrent.Pool, id string, node PlanNode) *VerifStage {
+	s := &VerifStage{ID: id, Node: node}
+	s.stageType = Unknown
+	if pool != nil {
+		s.ctx = ctx
+		s.execPool = pool
+	}
+	return s
+}
+
+func (s *VerifStage) Plan() PlanNode      { return s.Node }
+func (s *VerifStage) NextStages() []Stage { return s.Next }
+func (s *VerifStage) Identifier() string  { return s.ID }
+func (s *VerifStage) Complete() {
+	if s.OnComplete != nil {
+		s.OnComplete()
+	}
+}
+
+// VerifNewPool re-exports internal/concurrent.NewPool (internal packages cannot be imported by the harness).
+func VerifNewPool(name string, workers int) concurrent.Pool {
+	return concurrent.NewPool(name, workers, time.Second,
+		metrics.NewConcurrentStatistics(name, linmetric.StorageRegistry))
+}
